@@ -356,6 +356,7 @@ def program(r, size=3):
 #          loops with break/continue.
 # stages 3..6: global values, top-level functions, early returns, definitions after start.
 # stage 7: local functions in the body of `start` that capture and change its mutable locals.
+# stage 8: local functions in nested blocks, if-branches and loop bodies too.
 
 class FragGen:
     def __init__(self, r, stage=1):
@@ -409,6 +410,11 @@ class FragGen:
         pad = "  " * ind
         out = []
         for _ in range(n):
+            if self.stage >= 8 and r.random() < 0.2:
+                # stage 4c': a local function in a nested list (block, branch, loop body); it captures the variables of
+                # this execution of the list, assigns a captured mutable one, and is called until the end of the list
+                out += self.local_function(env, ind)
+                continue
             k = r.random()
             if k < 0.25:
                 x = self.fresh()
@@ -500,6 +506,24 @@ class FragGen:
                 else:
                     out += self.function(env2)
         return "\n".join(out) + "\n"
+
+    def local_function(self, env, ind):
+        r = self.r
+        pad = "  " * ind
+        env.setdefault("funs", [])
+        lf = self.fresh("lf")
+        nparams = r.randint(0, 2)
+        params = [self.fresh("p") for _ in range(nparams)]
+        fenv = {"ints": list(env["ints"]) + params, "bools": list(env["bools"]), "muts": list(env["muts"]), "funs": list(env["funs"])}
+        out = ["%s%s :: fn %s-> int do" % (pad, lf, "".join("%s: int, " % p for p in params)[:-2] + " " if params else "")]
+        if env["muts"]:
+            out.append("%s  %s %s %s" % (pad, r.choice(env["muts"]), r.choice(["+=", "-=", "="]), self.int_expr(fenv, 0)))
+        out += self.block(fenv, 1, ind + 1, r.randint(0, 2))
+        out.append("%s  %s" % (pad, self.int_expr(fenv, 1)))
+        out.append("%send" % pad)
+        env["funs"].append((lf, nparams))
+        out.append("%sprint(%s(%s))" % (pad, lf, ", ".join(self.int_expr(env, 0) for _ in range(nparams))))
+        return out
 
     def body_with_local_functions(self, env, ind):
         r = self.r
